@@ -158,10 +158,15 @@ DerValue(b, t, d) ==
 BVal(b, t, a) == IF a \in DOMAIN t THEN t[a] ELSE IF a \in DOMAIN b.pars THEN b.pars[a] ELSE DerValue(b, t, a)
 BRate(b, t, r) == ProdSeq([j \in DOMAIN r.args |-> BVal(b, t, r.args[j])])
 BNet(r) == Repack(r.subs, r.prods)
+\* An UNMAPPED reaction may carry the optional field den: its coefficients are the unit counts divided by den
+\* (S -> 0.5 W + 1.5 V is subs <<S, S>>, prods <<W, V, V, V>>, den 4 ... or units over den = 2); the content is chosen
+\* so that every rate of such a reaction is a multiple of den and all derivatives stay integers.
+Den(r) == IF "den" \in DOMAIN r THEN r.den ELSE 1
 BRhs(b, t) ==
     [c \in CpdSet(b) |->
         SumSeq([j \in DOMAIN b.rxns |->
-                  IF c \in DOMAIN BNet(b.rxns[j]) THEN BNet(b.rxns[j])[c] * BRate(b, t, b.rxns[j]) ELSE 0])]
+                  IF c \in DOMAIN BNet(b.rxns[j])
+                  THEN (BNet(b.rxns[j])[c] * BRate(b, t, b.rxns[j])) \div Den(b.rxns[j]) ELSE 0])]
 
 \* labelled model: isotopomers and unlabelled variables from y, everything else at the totals
 LArgVal(b, y, tt, a) == IF a \in DOMAIN y THEN y[a] ELSE BVal(b, tt, a)
@@ -171,11 +176,11 @@ LRate(b, y, tt, ir)  == ProdSeq([j \in DOMAIN ir.args |-> LArgVal(b, y, tt, ir.a
 LRhs(b, y, mode) ==
     LET tt    == Totals(b, y)
         isos  == UNION {IsoRxns(b, b.rxns[j], mode) : j \in Mapped(b)}
-        rated == {[name |-> ir.name, st |-> ir.st, v |-> LRate(b, y, tt, ir)] : ir \in isos}
-        plain == {[name |-> b.rxns[j].name, st |-> BNet(b.rxns[j]), v |-> BRate(b, tt, b.rxns[j])] : j \in Unmapped(b)}
+        rated == {[name |-> ir.name, st |-> ir.st, v |-> LRate(b, y, tt, ir), den |-> 1] : ir \in isos}
+        plain == {[name |-> b.rxns[j].name, st |-> BNet(b.rxns[j]), v |-> BRate(b, tt, b.rxns[j]), den |-> Den(b.rxns[j])] : j \in Unmapped(b)}
         all   == rated \cup plain
     IN [n \in DOMAIN y |->
-          FoldSet(LAMBDA x, acc : acc + (IF n \in DOMAIN x.st THEN x.st[n] * x.v ELSE 0), 0, all)]
+          FoldSet(LAMBDA x, acc : acc + (IF n \in DOMAIN x.st THEN (x.st[n] * x.v) \div x.den ELSE 0), 0, all)]
 
 (***************************************************************************)
 (* Theorems of the definition (checked by TLC on every enumerated content) *)
